@@ -441,3 +441,35 @@ def quartic(ctx, case):
 
 
 contract("C06", FILE, "quartic_equation_solve_exact", cases=[1, 3], lang="c", replay="rmsd", covers=["returned", "roots-checked"], max_paths=200)(quartic)
+
+
+def direct_solve(ctx, case=None):
+    """DirectSolve(lambda, C_0, C_1, C_2): solves x^4 + C_2 x^2 + C_1 x + C_0 (d3 = 0, d4 = 1) and returns the largest of the four
+    values the quartic solver reports (the initial guess lambda is not used)"""
+    c = ctx.load_c(FILE, ["DirectSolve"], **INC)
+    C0, C1, C2, lam = ctx.real("C_0"), ctx.real("C_1"), ctx.real("C_2"), ctx.real("lambda0")
+    vals = [ctx.real(f"root{k}") for k in range(4)]
+    seen = {}
+
+    def quartic_model(interp, args):
+        seen["coef"] = args[6:11]
+        for ref, v in zip(args[:4], vals):
+            ref.write(0, v)
+        args[4].write(0, 2)
+        args[5].write(0, 2)
+        return 4
+
+    c.call_models["quartic_equation_solve_exact"] = quartic_model
+    out = ctx.ccall("DirectSolve", lam, C0, C1, C2)
+    ctx.ensure("returns-normally", out.exc is None)
+    if out.exc is not None or "coef" not in seen:
+        return
+    ctx.cover("returned")
+    d0, d1, d2, d3, d4 = seen["coef"]
+    ctx.ensure("solves-x^4+C_2*x^2+C_1*x+C_0", z3.And(rterm(d0) == C0.t, rterm(d1) == C1.t, rterm(d2) == C2.t, z3.BoolVal(float(d3) == 0.0 and float(d4) == 1.0)))
+    r = rterm(out.value)
+    ctx.ensure("result>=each-reported-value", z3.And(*[r >= v.t for v in vals]))
+    ctx.ensure("result-is-one-of-the-reported-values", z3.Or(*[r == v.t for v in vals]))
+
+
+contract("C06", FILE, "DirectSolve", lang="c", replay="rmsd", covers=["returned"], max_paths=50)(direct_solve)
